@@ -5,6 +5,7 @@
 #include <cstdio>
 #include <memory>
 #include <string>
+#include <string_view>
 #include <vector>
 
 namespace hm {
@@ -25,6 +26,14 @@ template <typename F> void run_long(F f)
 template <typename F> void run_str(F f)
 {
   for (char const* s : {"", "a", "ab", "b"}) { std::string x = s; emit(f(x)); }
+}
+// the same four strings as run_str, as std::string_view slices of a longer buffer: the view's length, not the first NUL of
+// the buffer, delimits the text
+template <typename F> void run_sv(F f)
+{
+  static char const buf[] = "abab";
+  for (std::string_view v : {std::string_view(buf, 0), std::string_view(buf, 1), std::string_view(buf, 2), std::string_view(buf + 1, 1)})
+  { std::string_view x = v; emit(f(x)); }
 }
 template <typename F> void run_cstr(F f)
 {
